@@ -6,6 +6,8 @@ package carapace
 // Add-only: re-exports unexported entry points through plain data types.
 
 import (
+	"encoding/json"
+
 	"github.com/carapace-sh/carapace/internal/common"
 	"github.com/carapace-sh/carapace/internal/shell"
 	"github.com/carapace-sh/carapace/internal/shell/bash"
@@ -61,4 +63,9 @@ func VerifValue(ia InvokedAction, shellName, word string) string {
 // VerifTokenize exposes tokenize.
 func VerifTokenize(s string, dividers ...string) []string {
 	return tokenize(s, dividers...)
+}
+
+// VerifExportJSON marshals the export document of an InvokedAction (InvokedAction.export).
+func VerifExportJSON(ia InvokedAction) ([]byte, error) {
+	return json.Marshal(ia.export())
 }
